@@ -177,7 +177,7 @@ def gen(kind, tier):
         for shp in [(2, 2)] + ([(2, 3)] if T else []):
             for m in masks_of(shp[0] * shp[1]):
                 for ch in enums.chunkings(shp):
-                    for op in [("construct",), ("filled", None), ("getmaskarray",), ("rdiv_s",), ("m_where", "da"), ("m_greater",), ("m_greater_arr", "da"), ("nonzero",), ("T",), ("row0",), ("where3",), ("filled_sum",)]:
+                    for op in [("construct",), ("filled", None), ("getmaskarray",), ("rdiv_s",), ("m_where", "da"), ("m_greater",), ("m_greater_arr", "da"), ("m_less_arr2", "np"), ("m_less_arr2", "da"), ("nonzero",), ("T",), ("row0",), ("where3",), ("filled_sum",)]:
                         for build in ("ma", "fa"):
                             yield ("un2", shp, m, ch, build, None, op)
     else:
@@ -353,6 +353,11 @@ def unary(op, A, x, xp, is_da):
         if is_da and op[1] == "da":
             v = da.from_array(v, chunks=1)
         return xp.masked_greater(A, v)
+    if name == "m_less_arr2":
+        v = np.arange(x.size).reshape(x.shape)[::-1, ::-1].copy() if x.ndim == 2 else np.arange(x.size)[::-1].copy()
+        if is_da and op[1] == "da":
+            v = da.from_array(v, chunks=1)
+        return xp.masked_less(A, v)  # value of the same dimensionality (not symmetric under transposition for 2-d)
     if name == "filled_sum":
         return (da if is_da else np).sum(xp.filled(A + 1, 0))
     if name == "T":
